@@ -355,7 +355,8 @@ def judge (c : Case) (orc : Oracle) (stream : Bool) (dec : Dec) (impl : Res) : S
         | none => none
   -- does C04_refines / C04_order_independent cover this request? (counted in the branch histogram)
   -- Inside the theorem's hypotheses the case is judged by `stageExpect`, the executable oracle PROVED to be the
-  -- declarative StageSpec (`C04_stage_oracle_accepts/_rejects/_defined`); `expect` must agree with it when both speak.
+  -- declarative StageSpec (`C04_stage_oracle_accepts/_rejects/_defined`); `expect` (above) IS `stageExpect` there
+  -- (`C04_expect_in_domain`), the per-field rules `expectRules` must agree with it when both speak.
   let st := stageExpect c.sch orc c.root c.bd dec c.rq
   let thm := st.isSome
   let stageViol : Option String :=
@@ -368,7 +369,7 @@ def judge (c : Case) (orc : Oracle) (stream : Bool) (dec : Dec) (impl : Res) : S
     | some (.error se), .err e => if e == errName se then none else some s!"stage-spec: wrong error impl=err:{e} spec=err:{errName se}"
     | _, _ => none
   let oraclesDisagree : Bool :=
-    match st, sp with
+    match st, expectRules c.sch orc c.root c.bd dec c.rq with
     | some (.ok l), some (.ok l') => renderLeaves l != renderLeaves l'
     | some (.error e), some (.error e') => !(e == e')
     | some (.ok _), some (.error _) => true
@@ -380,7 +381,7 @@ def judge (c : Case) (orc : Oracle) (stream : Bool) (dec : Dec) (impl : Res) : S
   match specViol with
   | some why => s!"VIOL {why} model={showRes (transcode c.sch orc c.root c.bd dec c.rq)}"
   | none =>
-    if oraclesDisagree then s!"BAD the two specification oracles disagree: expect={specName sp} stageExpect={specName st}" else
+    if oraclesDisagree then s!"BAD the two specification oracles disagree: expectRules={specName (expectRules c.sch orc c.root c.bd dec c.rq)} stageExpect={specName st}" else
     if !wfInputs c.sch orc c.root c.rq then "BAD model inputs not well formed (dangling reference, illegal map key kind or oracle miss)"
     else
     let models := (orders c.rq).map (fun rq => transcode c.sch orc c.root c.bd dec rq)
